@@ -162,6 +162,15 @@ def r16_3(ctx):
     s, tt, ft = am["position"]
     pc = [(bb, t) for bb, t in b.iter_calls(callee=POP) if b.edge_dominates((s, tt), bb) or bb == tt]
     ctx.ob("position-arm:calls-play_out_position", len(pc) == 1, b.where(b.term_loc(s)), "%d calls of play_out_position under the `position` arm" % len(pc))
+    # unconditionally: no path through the arm returns to the loop without rebuilding the position,
+    # and the arm is entered on the command word alone
+    if pc:
+        skip = b.reaches(tt, h, removed_nodes={bb for bb, _ in pc}) and tt not in {bb for bb, _ in pc}
+        ctx.ob("position-arm:always-rebuilds", not skip, b.where(b.term_loc(s)),
+               "every `position` command rebuilds the board from its own text%s" % ("" if not skip else ": NOT so — some `position` commands are skipped and the engine keeps whatever board it held (e.g. the one its last `go` left behind)"))
+    extra = [show_expr(d, b)[:60] for d, vals, excl, s2, tg in dominating_facts(b, ex, tt) if s2 in loop and s2 != s and
+             not (d[0] == "bin" and d[1] == "Eq" and any(k[0] == "str" for k in (strip_refs(d[2]), strip_refs(d[3]))))]
+    ctx.ob("position-arm:unconditional", not extra, b.where(b.term_loc(s)), "conditions besides the command word: %s" % extra)
     for bb, t in pc:
         dest = t["dest"]
         al = None
